@@ -154,7 +154,7 @@ def prop(case, rec):
     if not r.ok:
         if r.error is not None and not isinstance(r.error, ZeroDivisionError):
             raise Violation('crash:' + type(r.error).__name__, f'run_trainer raised {r.error!r}', case)
-        rec.skip('trainer_did_not_complete')
+        trainer.skip_or_alarm(rec, r, case, case['entries'], case['alphabet_size'])
         return
     n_valid = len(r.passes[0]) if r.passes else len(pws)
     files, t = expected_files(r.sections, n_valid, case['coverage'])
